@@ -151,7 +151,7 @@ def main():
         na.append(dict(property_id=pid, reason=NOT_APPLICABLE.get(pid, PENDING)))
     try:
         commits = subprocess.check_output(["git", "-C", "/repo", "log", "--format=%H %s"], text=True).splitlines()
-        hooks = [l.split()[0] for l in commits if l.split(" ", 1)[1].startswith("verif hooks")]
+        hooks = [l.split()[0] for l in commits if l.split(" ", 1)[1].startswith("verif hook")]
     except Exception:
         hooks = []
     m = dict(
